@@ -124,9 +124,13 @@ package future
 //@   loop 1 invariant [done-monotone] forall g *Future {g.done} :: old(g.done) ==> g.done
 //@   loop 1 invariant [visited] held == old(held)[s.mutex := 2] && !s.protected && s.store == old(s.store) && stored_ok(s) && forall k packet.ID {visited[k]} :: visited[k] ==> s.store[k].done
 
+// Await: with a timeout, no single wait is unbounded - Future.Wait takes a
+// non-positive duration as "no timeout", so the rest of the deadline handed
+// to it must be positive.
 //@ func (s *Store) Await(timeout time.Duration) (err error)
 //@   requires [unlocked] held[s.mutex] == 0
 //@   ensures [unlocked] held == old(held)
+//@   at call 1 Wait assert [bounded-wait] timeout > 0 ==> rest > 0
 //@   modifies held
 //@   loop 1 invariant [unlocked] held == old(held)
 //@   loop 2 invariant [locked] held == old(held)[s.mutex := 1]
